@@ -436,6 +436,112 @@ func fnCalls(fd *ast.FuncDecl) []string {
 	return out
 }
 
+// linearise: the statements of a goroutine body in EXECUTED order: the body without its top-level defer
+// statements, followed by the deferred calls last-registered-first (valid because the body has no
+// return statement and no nested defer; otherwise the shape is refused)
+func lineariseDefers(body *ast.BlockStmt, where string) []ast.Stmt {
+	var plain []ast.Stmt
+	var deferred [][]ast.Stmt
+	for _, st := range body.List {
+		if ds, ok := st.(*ast.DeferStmt); ok {
+			if fl, ok := ds.Call.Fun.(*ast.FuncLit); ok && len(ds.Call.Args) == 0 {
+				deferred = append(deferred, fl.Body.List)
+			} else {
+				deferred = append(deferred, []ast.Stmt{&ast.ExprStmt{X: ds.Call}})
+			}
+			continue
+		}
+		plain = append(plain, st)
+	}
+	bad := false
+	for _, st := range plain {
+		ast.Inspect(st, func(x ast.Node) bool {
+			switch x.(type) {
+			case *ast.FuncLit:
+				return false
+			case *ast.ReturnStmt, *ast.DeferStmt:
+				bad = true
+			}
+			return true
+		})
+	}
+	if bad {
+		die("%s: return or nested defer in a goroutine body with deferred calls", where)
+	}
+	out := plain
+	for i := len(deferred) - 1; i >= 0; i-- {
+		out = append(out, deferred[i]...)
+	}
+	return out
+}
+
+func tailKind(st ast.Stmt) string {
+	kind := ""
+	ast.Inspect(st, func(x ast.Node) bool {
+		if _, ok := x.(*ast.FuncLit); ok {
+			return false
+		}
+		if c, ok := x.(*ast.CallExpr); ok {
+			switch exprStr(c.Fun) {
+			case "retireControlPlaneConnections":
+				kind = "drain"
+			case "oldCancel":
+				kind = "TCancel"
+			case "oldControlPlane.Close":
+				kind = "TCloseGen"
+			case "successor.RunReloadRetirementCleanup":
+				kind = "TCleanup"
+			case "close":
+				if len(c.Args) == 1 && exprStr(c.Args[0]) == "done" {
+					kind = "TCloseDone"
+				}
+			}
+		}
+		return true
+	})
+	return kind
+}
+
+// retTail: what the retirement goroutine does after the drain, in executed order
+func retTail(fd *ast.FuncDecl) []string {
+	var fl *ast.FuncLit
+	ast.Inspect(fd.Body, func(x ast.Node) bool {
+		if g, ok := x.(*ast.GoStmt); ok {
+			if f, ok := g.Call.Fun.(*ast.FuncLit); ok {
+				if fl != nil {
+					die("startControlPlaneRetirement: more than one goroutine")
+				}
+				fl = f
+			}
+			return false
+		}
+		return true
+	})
+	if fl == nil {
+		die("startControlPlaneRetirement: retirement goroutine not found")
+	}
+	tail := []string{}
+	seenDrain := false
+	for _, st := range lineariseDefers(fl.Body, "startControlPlaneRetirement") {
+		k := tailKind(st)
+		switch {
+		case k == "drain":
+			if seenDrain {
+				die("startControlPlaneRetirement: retireControlPlaneConnections called twice")
+			}
+			seenDrain = true
+		case k != "" && !seenDrain:
+			die("startControlPlaneRetirement: %s before the connections are drained", k)
+		case k != "":
+			tail = append(tail, k)
+		}
+	}
+	if !seenDrain {
+		die("startControlPlaneRetirement: retireControlPlaneConnections not called in the goroutine")
+	}
+	return tail
+}
+
 func bodyText(fd *ast.FuncDecl) string {
 	var b bytes.Buffer
 	_ = printer.Fprint(&b, token.NewFileSet(), fd.Body)
@@ -645,6 +751,7 @@ func main() {
 	for _, d := range mf.Decls {
 		if fd, ok := d.(*ast.FuncDecl); ok && fd.Recv != nil && fd.Name.Name == "startControlPlaneRetirement" {
 			bodies["reloadManager.startControlPlaneRetirement"] = bodyText(fd)
+			res["ret_tail"] = retTail(fd)
 		}
 	}
 	res["bodies"] = bodies
@@ -760,6 +867,18 @@ func label(n ast.Node) string {
 					set["swap"] = true
 				}
 			}
+			switch fn {
+			case "retireControlPlaneConnections":
+				set["tail:drain"] = true
+			case "oldCancel":
+				set["tail:cancel"] = true
+			case "oldControlPlane.Close":
+				set["tail:close"] = true
+			case "successor.RunReloadRetirementCleanup":
+				set["tail:cleanup"] = true
+			case "close":
+				set["tail:closedone"] = true
+			}
 			if fused[fn] {
 				set["call:"+fn] = true
 			}
@@ -871,6 +990,8 @@ func instrStmt(hook, fn string, s ast.Stmt) {
 	case *ast.GoStmt:
 		if fl, ok := v.Call.Fun.(*ast.FuncLit); ok {
 			sub := fn + ".go"
+			// deferred calls are put where they are executed: after the body, last registered first
+			fl.Body.List = lineariseDefers(fl.Body, fn)
 			instrBlock(hook, sub, fl.Body)
 			// the new goroutine announces itself before anything else
 			exit := &ast.DeferStmt{Call: yieldCall(hook, sub, "exit").(*ast.ExprStmt).X.(*ast.CallExpr)}
@@ -883,6 +1004,45 @@ func instrStmt(hook, fn string, s ast.Stmt) {
 	}
 }
 
+func lineariseDefers(body *ast.BlockStmt, where string) []ast.Stmt {
+	var plain []ast.Stmt
+	var deferred [][]ast.Stmt
+	for _, st := range body.List {
+		if ds, ok := st.(*ast.DeferStmt); ok {
+			if fl, ok := ds.Call.Fun.(*ast.FuncLit); ok && len(ds.Call.Args) == 0 {
+				deferred = append(deferred, fl.Body.List)
+			} else {
+				deferred = append(deferred, []ast.Stmt{&ast.ExprStmt{X: ds.Call}})
+			}
+			continue
+		}
+		plain = append(plain, st)
+	}
+	if len(deferred) == 0 {
+		return body.List
+	}
+	bad := false
+	for _, st := range plain {
+		ast.Inspect(st, func(x ast.Node) bool {
+			switch x.(type) {
+			case *ast.FuncLit:
+				return false
+			case *ast.ReturnStmt, *ast.DeferStmt:
+				bad = true
+			}
+			return true
+		})
+	}
+	if bad {
+		die("%s: return or nested defer in a goroutine body with deferred calls", where)
+	}
+	out := plain
+	for i := len(deferred) - 1; i >= 0; i-- {
+		out = append(out, deferred[i]...)
+	}
+	return out
+}
+
 func instrument(path, hook string, want []string, outPath string) {
 	f, err := parser.ParseFile(fset, path, nil, parser.ParseComments)
 	if err != nil {
@@ -891,7 +1051,7 @@ func instrument(path, hook string, want []string, outPath string) {
 	found := map[string]bool{}
 	for _, d := range f.Decls {
 		fd, ok := d.(*ast.FuncDecl)
-		if !ok || fd.Recv != nil || fd.Body == nil {
+		if !ok || fd.Body == nil {
 			continue
 		}
 		for _, w := range want {
@@ -921,6 +1081,8 @@ func main() {
 		[]string{"tryQueueReloadRequest", "clearReloadPending", "releaseReloadPendingAfterRetirement"}, filepath.Join(out, "run_instrumented.go"))
 	instrument(filepath.Join(repo, "component", "outbound", "dialer", "sticky_cache.go"), "VerifC20Yield",
 		[]string{"BeginReloadProxyFailureSuppression", "EndReloadProxyFailureSuppression"}, filepath.Join(out, "sticky_cache_instrumented.go"))
+	instrument(filepath.Join(repo, "cmd", "reload_manager.go"), "verifC20Yield",
+		[]string{"startControlPlaneRetirement"}, filepath.Join(out, "reload_manager_instrumented.go"))
 	_ = json.NewEncoder(os.Stdout).Encode(points)
 }
 '''
@@ -946,7 +1108,8 @@ EXPECTED_POINTS = [
     ("EndReloadProxyFailureSuppression", ""), ("EndReloadProxyFailureSuppression", "load"), ("EndReloadProxyFailureSuppression", ""),
     ("EndReloadProxyFailureSuppression", ""), ("EndReloadProxyFailureSuppression", "cas"), ("EndReloadProxyFailureSuppression", ""),
     ("EndReloadProxyFailureSuppression", "add,store"), ("EndReloadProxyFailureSuppression", ""),
-]
+] + [("startControlPlaneRetirement", "")] * 16 + [("startControlPlaneRetirement", "go")] + [("startControlPlaneRetirement.go", x) for x in (
+    "", "tail:drain", "", "tail:cancel", "tail:close", "", "", "tail:cleanup", "", "", "tail:closedone")]
 
 
 def instrument(sc):
@@ -966,7 +1129,8 @@ def instrument(sc):
         raise AnchorMoved((se or so).strip()[-800:])
     points = [(p["fn"], p["label"]) for p in json.loads(so)]
     overlay = {os.path.join(vlib.REPO, "cmd", "run.go"): os.path.join(dd, "out", "run_instrumented.go"),
-               os.path.join(vlib.REPO, "component", "outbound", "dialer", "sticky_cache.go"): os.path.join(dd, "out", "sticky_cache_instrumented.go")}
+               os.path.join(vlib.REPO, "component", "outbound", "dialer", "sticky_cache.go"): os.path.join(dd, "out", "sticky_cache_instrumented.go"),
+               os.path.join(vlib.REPO, "cmd", "reload_manager.go"): os.path.join(dd, "out", "reload_manager_instrumented.go")}
     return overlay, points
 
 
@@ -978,6 +1142,8 @@ HOLDERS = [
     [{"op": "T"}, {"op": "A", "b": True}, {"op": "F"}],
     [{"op": "T"}, {"op": "A", "b": True}, {"op": "RD"}, {"op": "H"}, {"op": "O"}],
     [{"op": "T"}, {"op": "A", "b": True}, {"op": "X"}, {"op": "H"}, {"op": "O"}],
+    # a successful reload with the REAL retirement goroutine (startControlPlaneRetirement on an empty old generation)
+    [{"op": "T"}, {"op": "A", "b": True}, {"op": "X"}, {"op": "H"}, {"op": "RS"}, {"op": "L", "b": False}, {"op": "O"}],
 ]
 
 
@@ -1009,6 +1175,20 @@ def gen_micro_adversarial(rng):
         th3 = micro_threads(3, holder, rng)
         out.append({"threads": th3, "steps": [{"t": i % 3} for i in range(60)], "drain": True, "name": "lockstep-3"})
         out.append({"threads": th3, "steps": [{"t": i % 4} for i in range(160)], "drain": True, "name": "lockstep-all"})
+    # the previous generation is still being torn down: the retirement goroutine is parked just before a
+    # statement of its tail (before oldCancel, before Close(), before the cleanup, before close(done)), the
+    # release goroutine gets its chance, request #2 is fired: it must be refused as busy; then the
+    # retirement finishes, the release runs, request #3 is accepted
+    th = micro_threads(3, HOLDERS[4], rng)
+    h, ret, rel = 3, 4, 5
+    for where in ("tail:cancel", "tail:close", "tail:cleanup", "tail:closedone"):
+        out.append({"threads": th, "steps": [{"t": 0, "until": "done"}, {"t": h, "until": "done"}, {"t": ret, "until": where},
+                                            {"t": rel, "until": "done"}, {"t": 1, "until": "done"}, {"t": ret, "until": "done"},
+                                            {"t": rel, "until": "done"}, {"t": 2, "until": "done"}], "drain": True, "name": "teardown-gap@" + where.split(":")[1]})
+        out.append({"threads": th, "steps": [{"t": 0, "until": "done"}, {"t": h, "until": "done"}, {"t": ret, "until": where}, {"t": ret},
+                                            {"t": rel, "until": "done"}, {"t": 1, "until": "done"}, {"t": ret, "until": "done"},
+                                            {"t": rel, "until": "done"}, {"t": 2, "until": "done"}], "drain": True, "name": "teardown-gap-after@" + where.split(":")[1]})
+    out.append({"threads": th, "steps": [{"t": i % 6} for i in range(240)], "drain": True, "name": "lockstep-teardown"})
     return out
 
 
@@ -1022,21 +1202,26 @@ def gen_micro_random(rng):
         if r < 0.04:
             steps.append({"is_close": True, "close": 0})
         elif r < 0.12:
-            steps.append({"t": rng.randrange(nsig + 2), "n": rng.choice([2, 3, 5])})
+            steps.append({"t": rng.randrange(nsig + 3), "n": rng.choice([2, 3, 5])})
         else:
-            steps.append({"t": rng.randrange(nsig + 2)})
+            steps.append({"t": rng.randrange(nsig + 3)})
     return {"threads": th, "steps": steps, "drain": rng.random() < 0.9, "name": "random"}
 
 
-HOLDER_EFF = {"K": "EClearPending", "F": "EFinishFail", "O": "EFinishOk", "H": "EBeginHandoff", "X": "EClearPendingRetirement", "RD": "EStartRetirement"}
+HOLDER_EFF = {"K": "EClearPending", "F": "EFinishFail", "O": "EFinishOk", "H": "EBeginHandoff", "X": "EClearPendingRetirement", "RD": "EStartRetirement",
+              "RS": "EStartRetirement"}
 
 
-def micro_actions(rec, prev, kind, own):
+def micro_actions(rec, prev, kind, own, tail=("TCancel", "TCloseGen", "TCleanup", "TCloseDone")):
     """the model actions one micro-step amounts to (the statement executed is the one after the yield
     the goroutine was parked at: function rec['fn'], atomic operations rec['label'])"""
     fn, lab = rec["fn"], [x for x in rec["label"].split(",") if x]
     if rec["t"] == -1:
-        return ["ARetire %d" % rec.get("close", 0)] * 2
+        # a harness-made retirement: drain, the tail up to and including close(done), in one go
+        n = 1 + (list(tail).index("TCloseDone") + 1 if "TCloseDone" in tail else len(tail))
+        return ["ARetire %d" % rec.get("close", 0)] * n
+    if fn == "startControlPlaneRetirement.go":
+        return [own] if any(x.startswith("tail:") for x in lab) else []
     if fn == "EndReloadProxyFailureSuppression":
         if "load" in lab and prev["supp"] <= 0:
             return [own]
@@ -1064,8 +1249,8 @@ def micro_actions(rec, prev, kind, own):
 def mobs_coq(o):
     if o["code"] not in ("Send", "Processing", "Done", "Error", "Busy") or not 0 <= o["supp"] <= 4000:
         raise ValueError("observation outside the model's vocabulary: %r" % o)
-    return "(Build_mobs %s %s %s %d %d C%s Msg%s)" % (vlib.cbool(o["pending"]), vlib.cbool(o["active"]), vlib.cbool(o["reloading"]),
-                                                        o["supp"], o["qlen"], o["code"], o["msg"])
+    return "(Build_mobs %s %s %s %d %d C%s Msg%s %s %s)" % (vlib.cbool(o["pending"]), vlib.cbool(o["active"]), vlib.cbool(o["reloading"]),
+                                                              o["supp"], o["qlen"], o["code"], o["msg"], vlib.cbool(o.get("done0")), vlib.cbool(o.get("genclosed0")))
 
 
 def run_micro(sc, binary, cases, tag, d, scale=1):
@@ -1081,7 +1266,7 @@ def run_micro(sc, binary, cases, tag, d, scale=1):
     if len(results) != len(cases):
         return None, None, "micro harness returned %d results for %d cases" % (len(results), len(cases))
     pre, terms, idx = {}, [], []
-    init = {"pending": False, "active": False, "reloading": False, "supp": 0, "qlen": 0, "code": "Done", "msg": "None"}
+    init = {"pending": False, "active": False, "reloading": False, "supp": 0, "qlen": 0, "code": "Done", "msg": "None", "done0": False, "genclosed0": False}
     for i, (c, r) in enumerate(zip(cases, results)):
         if r.get("panic"):
             pre[i] = [(0, 9, "panic: " + r["panic"])]
@@ -1090,12 +1275,14 @@ def run_micro(sc, binary, cases, tag, d, scale=1):
             pre[i] = [(len(r.get("recs") or []), 8, r["note"])]
             continue
         kinds = r.get("kinds") or []
-        sig_ix, rel_ix = {}, {}
+        sig_ix, rel_ix, ret_ix = {}, {}, {}
         for t, k in enumerate(kinds):
             if k == "sig":
                 sig_ix[t] = len(sig_ix)
             elif k == "releaser":
                 rel_ix[t] = len(rel_ix)
+            elif k == "retirer":
+                ret_ix[t] = len(ret_ix)
         holder = next(t["ops"] for t in c["threads"] if t["kind"] == "holder")
         effs = []
         for op in holder:
@@ -1109,8 +1296,9 @@ def run_micro(sc, binary, cases, tag, d, scale=1):
             for rec in r.get("recs") or []:
                 t = rec["t"]
                 kind = kinds[t] if 0 <= t < len(kinds) else "sched"
-                own = {"sig": "ASig %d" % sig_ix.get(t, 0), "holder": "AWorker", "releaser": "AReleaser %d" % rel_ix.get(t, 0)}.get(kind, "")
-                acts = micro_actions(rec, prev, kind, own)
+                own = {"sig": "ASig %d" % sig_ix.get(t, 0), "holder": "AWorker", "releaser": "AReleaser %d" % rel_ix.get(t, 0),
+                       "retirer": "ARetire %d" % ret_ix.get(t, 0)}.get(kind, "")
+                acts = micro_actions(rec, prev, kind, own, d["ret_tail"])
                 steps.append("(Build_micro_step %d [%s] %s)" % (1000 if t < 0 else t, "; ".join(acts), mobs_coq(rec["obs"])))
                 prev = rec["obs"]
         except ValueError as e:
@@ -1119,8 +1307,9 @@ def run_micro(sc, binary, cases, tag, d, scale=1):
         rets = r.get("rets") or []
         res = ["(%d, %d%%N)" % (t, {1: 1, 0: 0}.get(rets[t], 2)) for t in sig_ix]
         quiescent = all(x >= 0 for x in rets)
-        terms.append("(Build_micro_case (Build_tables [[%s]] [] %d %s%%N GAlways %s%%Z) [%s] [%s] [%s] %s)" % (
-            "; ".join(effs), d["cap"], hex(d["quiesce_ns"]), hex(d["budget_total_ns"]), "; ".join(setup), ";\n ".join(steps), "; ".join(res), vlib.cbool(quiescent)))
+        terms.append("(Build_micro_case (Build_tables [[%s]] [] %d %s%%N GAlways %s%%Z [%s]) [%s] [%s] [%s] %s [%s])" % (
+            "; ".join(effs), d["cap"], hex(d["quiesce_ns"]), hex(d["budget_total_ns"]), "; ".join(d["ret_tail"]), "; ".join(setup), ";\n ".join(steps),
+            "; ".join(res), vlib.cbool(quiescent), "; ".join(str(t) for t in rel_ix)))
         idx.append(i)
     text = ("From Coq Require Import List NArith ZArith Bool.\nFrom Dae Require Import C20_Spec C20_Model C20_Check.\nImport ListNotations.\n"
             "Definition cases : list micro_case := [\n" + ";\n".join(terms) + "\n].\n"
@@ -1234,6 +1423,8 @@ def gen_text(d):
     quiesce = eval_duration(c["reloadFailureQuiesce"], {"Timeout": timeout})
     d["quiesce_ns"] = quiesce
     d["budget_total_ns"] = eval_duration(c["reloadTotalSwitchBudget"], {})
+    if not isinstance(d.get("ret_tail"), list) or any(x not in ("TCancel", "TCloseGen", "TCleanup", "TCloseDone") for x in d["ret_tail"]):
+        raise AnchorMoved("startControlPlaneRetirement: tail of the retirement goroutine not understood: %r" % d.get("ret_tail"))
     if d.get("timer_guard") not in ("GAlways", "GNonNeg", "GPositive", "GNever"):
         raise AnchorMoved("waitForControlPlaneDrain: timer shape not understood: %r" % d.get("timer_guard"))
     # cmd/reload.go: the client sends its signal only when the progress file says Done or Error
@@ -1261,7 +1452,9 @@ def gen_text(d):
          "(* waitForControlPlaneDrain: condition on maxWait under which `return controlPlaneDrainTimeout` can be reached *)",
          "Definition gen_timer_guard : guard := %s." % d["timer_guard"],
          "Definition gen_budget_total : Z := %s%%Z.  (* reloadTotalSwitchBudget, ns *)" % hex(d["budget_total_ns"]),
-         "Definition gen_tables : tables := Build_tables gen_worker_paths gen_main_paths gen_cap gen_quiesce gen_timer_guard gen_budget_total.", ""]
+         "(* cmd/reload_manager.go startControlPlaneRetirement: the goroutine after the drain, deferred calls in executed order *)",
+         "Definition gen_ret_tail : list tail_step := [%s]." % "; ".join(d["ret_tail"]),
+         "Definition gen_tables : tables := Build_tables gen_worker_paths gen_main_paths gen_cap gen_quiesce gen_timer_guard gen_budget_total gen_ret_tail.", ""]
     return "\n".join(t)
 
 
@@ -1273,6 +1466,9 @@ def helper_mismatches(d):
             bad.append({"function": k, "expected_calls": exp, "found_calls": got})
     for k, exp in EXPECTED_BODIES.items():
         got = _nolit((d.get("bodies") or {}).get(k) or "")
+        if k == "reloadManager.startControlPlaneRetirement":
+            # the goroutine's tail is extracted structurally (gen_ret_tail); the shape check covers the rest
+            got, exp = got.split(" go func(")[0], exp.split(" go func(")[0]
         if got != exp:
             bad.append({"function": k, "expected_body": exp, "found_body": got})
     for p in d.get("main_idle") or []:
@@ -1905,7 +2101,7 @@ def main(argv):
                         micro_passed += 1
                         break
                     merr[i], mres[i] = e[0], r[0]
-        m_spec = sorted((i for i, e in merr.items() if any(x[1] in (7, 8, 9) for x in e)), key=lambda j: (mcases[j]["name"] == "random", len(mres[j].get("recs") or [])))
+        m_spec = sorted((i for i, e in merr.items() if any(x[1] in (7, 8, 9) for x in e)), key=lambda j: (mcases[j]["name"] != "teardown-gap@close", not mcases[j]["name"].startswith("teardown-gap@"), mcases[j]["name"] == "random", len(mres[j].get("recs") or [])))
         m_model = sorted(i for i, e in merr.items() if any(x[1] == 6 for x in e) and i not in m_spec)
         if m_spec:
             i = m_spec[0]
